@@ -182,6 +182,7 @@ func runC32Round(r *vk.Run, rd c32round) (sig string, hang bool) {
 	wg.Add(1)
 	go func() {
 		defer wg.Done()
+		defer c32Recover(r, rd)
 		<-start
 		for {
 			p.mu.Lock()
